@@ -50,6 +50,12 @@ CLAIMS = {
  'C12': ("Decides that every documented precondition gate lies on all paths to the hand-off, by scenario: for each gate its violating condition is asserted in a three-valued evaluation of the function's CFG and the transport/session hand-off must be unreachable while the mandated status (403/415/400/413, -32020/-32602/-32022/-32601) is written; the body limit wrap precedes dispatch; mirror-header validation precedes publication and covers every single message; the version-mirror gate reads the body's _meta unconditionally; the client's header setters and the server's validators use the same header constants, helpers, Mcp-Name method set, base64 wrapper and integer range; the server decides a missing Mcp-Param header by presence because the encoder can emit an empty value; binding paths are fresh slices. "
          "Not decided: completeness over all header sets and argument values (input space); header-safety of Mcp-Name values.",
          "scenario-driven three-valued CFG evaluation (predicate abstraction), sibling agreement of encoder/validator tables and constants, alias rule for recursive slice building", "§3 C12"),
+ 'C13': ("Decides the keep-alive loop as a counter automaton on its CFG: counter starts at 0, is reset exactly on err == nil (every success path resets before the next ping), incremented once on a failed ping that is not method-not-found, Close reachable only through the false branch of counter < threshold after the increment and never from the success branch, method-not-found exits silently, the loop ends after Close; threshold < 1 normalised; tick period = interval and never Reset, deferred Stop, per-ping timeout = interval/k (k >= 1) from Background and always released, ctx.Done arm returns; cancel published before the go statement; started only under KeepAlive > 0; Close cancels; a timed-out ping write does not set writeErr. "
+         "Not decided: the bound 'within N intervals plus one timeout' as a time value.",
+         "CFG rules for a counter automaton (guard dominance, must-pass-through, reachability), constant-expression checks for the timing parameters", "§3 C13"),
+ 'C14': ("Decides the iff on verify's CFG: one admitting return; for each failing check (malformed header, wrong scheme, invalid-token / oauth / other verifier error, nil info, missing expiration when not allowed, expired beyond skew for every value of AllowMissingExpiration) a three-valued evaluation shows the admitting return unreachable and only the mandated status returned; the scope loop over opts.Scopes lies on every path to admission when options are given and returns 403 at the first miss; expiry test in the documented normal form; the admitted value and the verifier's credential argument are checked; the middleware calls the handler only under code == 0, injects verify's value, challenges only 401/403 with resource_metadata and scope, writes no captured variable (per-request state only). "
+         "Not decided: anything about the verifier callback.",
+         "scenario-driven three-valued CFG evaluation, guard dominance, captured-variable write rule", "§3 C14"),
 }
 
 REASONS = {}
